@@ -32,7 +32,7 @@ RULE = ("expressions with 1..3 (possibly nested) einsum/matmul/dot nodes whose "
         "einsums' (RuntimeError) is the documented refusal.  non-trivial = the "
         "rewritten graph differs structurally from the original; distinct by "
         "(program, policy)")
-RULE += '  Round-4 addition: 64 enumerated mixed-dtype products A @ (x +- y) with A, x of a narrow dtype whose products leave it (int8/uint8/int16 wrap, float32 rounds) and y wider: distributing would contract in the narrow dtype.'
+RULE += '  Round-4 addition: 64 enumerated mixed-dtype products A @ (x +- y) with A, x of a narrow dtype whose products leave it (int8/uint8/int16 wrap, float32 rounds) and y wider: distributing would contract in the narrow dtype.  Round 5: 48 products A @ (x*3 | x+-z) with x, z narrow and A wide (the narrow operation wraps / rounds BEFORE the einsum widens it).'
 ASSUMPTIONS = [
     "dtypes int32/int64/float64/complex128 only, so that the inexact-case "
     "tolerance stays 9 orders of magnitude below the effect of a wrong rewrite",
@@ -131,14 +131,21 @@ def case_oracle(case):
         except Exception as e:  # noqa: BLE001
             return Failure("build-exception", f"{type(e).__name__}: {e}",
                            exc_site(e)), info
-        try:
-            ref = reference(spec, prog)
-        except Skip as s:
-            info["skip"] = str(s)
-            return None, info
+        if case.get("exact_all"):
+            # (enumerated cases whose point is wrap-around / rounding in a
+            # narrow dtype, which the error model refuses to follow: both
+            # sides are evaluated by the same NumPy-semantics evaluator and
+            # must agree exactly)
+            ref = None
+        else:
+            try:
+                ref = reference(spec, prog)
+            except Skip as s:
+                info["skip"] = str(s)
+                return None, info
         g = pt.transform.deduplicate(prog.dict_of_named_arrays())
         env = dict(input_values(spec))
-        exact = {k: bool(ref[i] is not None and ref[i].exact)
+        exact = {k: bool(ref is None or (ref[i] is not None and ref[i].exact))
                  for k, i in spec["outputs"]}
         try:
             v0, m0 = evaluate(g, env)
@@ -287,6 +294,100 @@ def mixed_dtype_gadgets():
                    "policy": [0 if first else 1]}
 
 
+def narrow_operand_gadgets():
+    """A @ (x * c), A @ (x + z), A @ (-x) with x (and z) of a NARROW dtype in
+    which the operation wraps / rounds, and A of a wider one: the einsum
+    widens what the narrow operation produced; distributed, it would widen
+    x first"""
+    big = {"int8": [100, 90, -100], "uint8": [200, 190, 250],
+           "int16": [30000, 29000, -30000],
+           "float32": [16777215, 16777213, -16777215]}
+    for narrow, wide in (("int8", "int64"), ("int8", "float64"),
+                         ("uint8", "int32"), ("int16", "int64"),
+                         ("float32", "float64"), ("float32", "complex128")):
+        def ph(name, d, shape, values):
+            if d.startswith("complex"):
+                values = [[v, 0] for v in values]
+            return {"op": "placeholder", "p": {
+                "name": name, "dtype": d, "shape": shape, "scale": 0,
+                "values": values}}
+        for how, first in itertools.product(("mul3", "rmul3", "add", "sub"),
+                                            (0, 1)):
+            if how == "sub" and narrow.startswith("uint"):
+                # (the evaluator spells x - z as x + (-1)*z, which NumPy 2
+                # refuses for an unsigned z)
+                continue
+            nodes = [ph("A", wide, [2, 3], [1, 2, 3, -1, 1, 2]),
+                     ph("x", narrow, [3], big[narrow]),
+                     ph("z", narrow, [3], big[narrow][::-1])]
+            if how == "mul3":
+                nodes.append({"op": "mul", "args": [["n", 1], ["py", 3]]})
+            elif how == "rmul3":
+                nodes.append({"op": "mul", "args": [["py", 3], ["n", 1]]})
+            else:
+                nodes.append({"op": how, "args": [["n", 1], ["n", 2]]})
+            if first:
+                nodes.append({"op": "einsum", "p": {"spec": "j,ij->i"},
+                              "args": [["n", 3], ["n", 0]]})
+            else:
+                nodes.append({"op": "einsum", "p": {"spec": "ij,j->i"},
+                              "args": [["n", 0], ["n", 3]]})
+            yield {"spec": {"nodes": nodes, "outputs": [["out0", 4]]},
+                   "policy": [0 if first else 1], "exact_all": True}
+
+
+def nested_reshape_gadgets():
+    """(B @ (x1 + x2)) reshaped twice (orders C/F mixed), transposed twice
+    (non-commuting permutations) or rolled, then contracted again: the
+    mapper rebuilds the movement nodes above a distributed einsum"""
+    def ph(name, shape, values):
+        return {"op": "placeholder", "p": {"name": name, "dtype": "float64",
+                                           "shape": shape, "scale": 0,
+                                           "values": values}}
+    base = [ph("B", [6, 3], list(range(1, 19))), ph("x1", [3], [1, -2, 3]),
+            ph("x2", [3], [5, 7, -1]),
+            {"op": "add", "args": [["n", 1], ["n", 2]]},
+            {"op": "einsum", "p": {"spec": "ij,j->i"},
+             "args": [["n", 0], ["n", 3]]}]
+    for o1, o2 in (("F", "C"), ("C", "F"), ("F", "F"), ("C", "C")):
+        nodes = list(base) + [
+            {"op": "reshape", "args": [["n", 4]],
+             "p": {"shape": [2, 3], "order": o1}},
+            {"op": "reshape", "args": [["n", 5]],
+             "p": {"shape": [3, 2], "order": o2}},
+            ph("w", [2], [2, -3]),
+            {"op": "einsum", "p": {"spec": "ij,j->i"},
+             "args": [["n", 6], ["n", 7]]}]
+        for pol in ([1, -1], [1, 0], [-1, 0]):
+            yield {"spec": {"nodes": nodes, "outputs": [["out0", 8]]},
+                   "policy": pol}
+    for p1, p2 in itertools.permutations(
+            [[1, 2, 0], [0, 2, 1], [2, 0, 1], [1, 0, 2]], 2):
+        nodes = list(base) + [
+            {"op": "reshape", "args": [["n", 4]],
+             "p": {"shape": [1, 2, 3], "order": "C"}},
+            {"op": "transpose", "args": [["n", 5]], "p": {"axes": p1}},
+            {"op": "transpose", "args": [["n", 6]], "p": {"axes": p2}},
+            {"op": "sum", "args": [["n", 7]], "p": {"axis": None}}]
+        yield {"spec": {"nodes": nodes, "outputs": [["out0", 7], ["out1", 8]]},
+               "policy": [1]}
+        # ... and the same two transposes INSIDE the distributed operand
+        shp = [2, 3, 4]
+        s1 = [shp[a] for a in p1]
+        s2 = [s1[a] for a in p2]
+        n = 24
+        nodes = [ph("y1", shp, [(7 * i) % 11 - 5 for i in range(n)]),
+                 ph("y2", shp, [(5 * i) % 13 - 6 for i in range(n)]),
+                 {"op": "add", "args": [["n", 0], ["n", 1]]},
+                 {"op": "transpose", "args": [["n", 2]], "p": {"axes": p1}},
+                 {"op": "transpose", "args": [["n", 3]], "p": {"axes": p2}},
+                 ph("w", [s2[-1]], [2, -3, 1, 4][:s2[-1]]),
+                 {"op": "einsum", "p": {"spec": "abc,c->ab"},
+                  "args": [["n", 4], ["n", 5]]}]
+        yield {"spec": {"nodes": nodes, "outputs": [["out0", 6]]},
+               "policy": [0]}
+
+
 def run_shard(shard: int, nshards: int, seed: int, tier: str) -> ShardResult:
     pl = plan(tier)
     res = ShardResult()
@@ -311,7 +412,9 @@ def run_shard(shard: int, nshards: int, seed: int, tier: str) -> ShardResult:
             res.fail(f, case)
 
     hyp_run(cases(), body, seed, pl["examples"])
-    for k, case in enumerate(mixed_dtype_gadgets()):
+    for k, case in enumerate(itertools.chain(mixed_dtype_gadgets(),
+                                             narrow_operand_gadgets(),
+                                             nested_reshape_gadgets())):
         if k % nshards == shard:
             res.count("mixed_dtype_gadget")
             body((case, None))
